@@ -52,6 +52,8 @@ def geom(name, tree='T1', nfree=6, window_mid=False, bounds=None, info=None):
         'G32b': dict(fat32=True, clusters=65662, bpc=1, nfats=1, lba=2048, slot=3, ptype=0x0B, reserved=32, root_cluster=5, info_free='unknown'),
         'G32c': dict(fat32=True, clusters=70000, bpc=8, nfats=2, lba=8, slot=0, ptype=0x0C, reserved=32),
         'G32d': dict(fat32=True, clusters=65600, bpc=128, nfats=2, lba=8, slot=0, ptype=0x0C, reserved=34, fsinfo=2),
+        'G16f': dict(fat32=False, clusters=4100, bpc=2, nfats=2, root_entries=32, lba=8, slot=0, ptype=6),
+        'G32f': dict(fat32=True, clusters=65600, bpc=2, nfats=2, lba=8, slot=0, ptype=0x0C, reserved=32),
         'G32e': dict(fat32=True, clusters=70000, bpc=1, nfats=1, lba=8, slot=0, ptype=0x0C, reserved=32),
     }[name]
     v = dict(P)
@@ -744,7 +746,7 @@ def fault_histories(seed, quick):
         for d_ in reversed(vars_d):
             tail += [O('iterate', d=d_), O('iterate', d=d_), O('close_dir', d=d_)]
         tail += [O('close_volume', v='v0'), O('close_volume', v='v0'), O('remount')]
-        H.append(dict(id=hid, src='fault', image=image, bounds=bounds, limits=list(lim), ops=ops + tail, fault_enum=dict(cap=cap)))
+        H.append(dict(id=hid, src='fault', image=image, bounds=bounds, limits=list(lim), ops=ops + tail, fault_enum=dict(cap=cap, multi=12 if quick else 400)))
 
     for gname in (['G16a', 'G32a'] if quick else ['G16a', 'G32a', 'G16c', 'G32b', 'G16b']):
         # read-only walks over a multi-cluster directory (FAT reads inside the walk), each call twice (retry)
